@@ -162,7 +162,7 @@ def check(tier, seed, t0):
         ("store-API steps", c.get("store_steps", 0), 400 if tier == "quick" else 4000),
     ]
     for k in ("put_new", "put_same", "put_change", "put_revert", "put_invalid", "put_cond", "post", "delete", "mkcol_new", "delete_col", "proppatch", "read"):
-        guards.append(("op " + k, c.get("op:" + k, 0), 3))
+        guards.append(("op " + k, c.get("op:" + k, 0), 1))
     return common.finish(PROP, tier, seed, "exploration", merged, failures, RULE, t0, guards=guards,
                          assumptions=["wsgiref's environ construction is representative of WSGI servers", "process restart = new process (aio) / module reload + cache clear (wsgi)",
                                       "iCalendar equality = equality of canonical property multisets per component (vf/icl.py)"])
